@@ -27,7 +27,7 @@ ASSUMPTIONS = ['dyadic times/timesteps (float arithmetic exact); run length a mu
                'event values are scalars (ints/strings)']
 
 TIMES = [0, 0.5, 1, 1.5, 2, 2.5, 3, 5]
-VARS = [['s', 'a'], ['s', 'b'], ['s', 'c'], ['u', 'x']]
+VARS = [['s', 'a'], ['s', 'b'], ['s', 'c'], ['u', 'x'], ['s', 'grp', 'd']]
 
 _BASE = [
     [[0, [[['s', 'a'], 11]]], [1, [[['s', 'a'], 12]]], [2, [[['s', 'b'], 13]]]],
@@ -98,16 +98,24 @@ def run(spec):
     class Bump(Step):
         def ports_schema(self):
             sch = {}
-            for p, name in driven:
-                sch.setdefault(p, {})[name] = {'_default': 0, '_emit': True, '_updater': 'set'}
+            for var in driven:
+                node = sch
+                for k in var[:-1]:
+                    node = node.setdefault(k, {})
+                node[var[-1]] = {'_default': 0, '_emit': True, '_updater': 'set'}
             return sch
 
         def next_update(self, timestep, states):
             upd = {}
-            for p, name in driven:
-                x = states[p][name]
+            for var in driven:
+                x = states
+                for k in var:
+                    x = x[k]
                 if isinstance(x, int):
-                    upd.setdefault(p, {})[name] = x + 1
+                    node = upd
+                    for k in var[:-1]:
+                        node = node.setdefault(k, {})
+                    node[var[-1]] = x + 1
             return upd
 
     class Other(Process):
@@ -138,11 +146,11 @@ def run(spec):
     steps = {'bump': Bump()}
     topology['bump'] = dict(where)
     init = {}
-    for p, name in driven:
+    for var in driven:
         node = init
-        for k in where[p]:
+        for k in where[var[0]] + tuple(var[1:-1]):
             node = node.setdefault(k, {})
-        node[name] = 0
+        node[var[-1]] = 0
     try:
         e = Engine(processes=processes, steps=steps, topology=topology, initial_state=init,
                    display_info=False)
@@ -160,11 +168,11 @@ def run(spec):
             if t not in exp:
                 continue        # ticks of the other process
             vals = {}
-            for p, name in driven:
+            for var in driven:
                 node = row
-                for k in where[p]:
+                for k in where[var[0]] + tuple(var[1:-1]):
                     node = node.get(k, {}) if isinstance(node, dict) else {}
-                vals[(p, name)] = node.get(name, 'MISSING') if isinstance(node, dict) else 'MISSING'
+                vals[var] = node.get(var[-1], 'MISSING') if isinstance(node, dict) else 'MISSING'
             got[t] = vals
         bad = [t for t in exp if got.get(t) != exp[t]]
         V.check('trajectory', not bad,
